@@ -22,7 +22,7 @@ func init() {
 	register(&Check{
 		ID: "C05", Level: "exploration", Configs: []string{"clean"},
 		Run:         runC05,
-		QuickRuns:   400_000,
+		QuickRuns:   3_000_000,
 		ThoroughSec: 480,
 		Rule: "one run = one header in a drawn starting state (zero value; Extension preset to 0xBEDE / 0x1000 / a legacy profile; obtained from Unmarshal of generated traffic) and a history of " +
 			"0-12 operations SetExtension(id in {0,1,2,14,15,16,255,any}, len in {0,1,2,4,16,17,255,256,300,any<=300}) / DelExtension / GetExtension / GetExtensionIDs / Marshal, checked " +
